@@ -113,6 +113,8 @@ def check(ctx):
     try_coq(ctx, "C16/corr/check_dataset/model", corr_ds)
 
     shape_routes(ctx, np.random.default_rng(ctx.seed + 5))
+
+    nonintegral_orders(ctx, np.random.default_rng(ctx.seed + 17))
     # ---- histories (Api.v when it builds, its Python port otherwise)
     n_hist, length = (14, 7) if ctx.quick else (80, 9)
     bad = run_histories(ctx, "C16", n_hist, length, rng, tag=ctx.tier, use_coq=ctx.coq_ok)
@@ -221,3 +223,46 @@ def shape_routes(ctx, rng):
                     if route != "constructor" or fc is not None:
                         if fc is None or set(fc) != set(ref) or any(not np.array_equal(fc[k], ref[k]) for k in ref):
                             ctx.fail("oracle", "C16/oracle/shape-route", f"{call}() rejected {which} of shape {np.shape(bad)} ({kname}, {route}) but the stored force constants changed", replay=rep, has_input=True)
+
+
+def nonintegral_orders(ctx, rng):
+    """Order specifications whose entries are not integers and are not numerically equal to a supported order (2.5, '2', "23",
+    float arrays, None, max_order=3.9): an unsupported request, whatever it would truncate or parse to (R15-L4: `int(order)`
+    in `_check_orders`).  Through `_check_orders` and through run / solve / compute_basis_set on an object that holds results:
+    an exception, and the stored force constants stay as they were."""
+    from gens import atoms_of, base_cells, make_supercell
+    from symfc import Symfc
+
+    bad_lists = [[2.5], [3.5], [4.9], [2.2, 3.9], [2.5, 3], [2, 3.5, 4], ["2"], ["3"], ["2", "3"], "2", "23", "234", np.array([2.5]), np.array([2.9, 3.1]),
+                 np.array([2.000001]), [None], [2, None], [np.float64(3.999999)], [b"2"]]
+    bad_max = [2.5, 3.9, "3", 4.5, np.float64(2.2)]
+    obj = Symfc.__new__(Symfc)
+    for m, l in [(None, x) for x in bad_lists] + [(x, None) for x in bad_max]:
+        ctx.case({"check_orders_nonintegral": [repr(m), repr(l)]}, nontrivial=True)
+        ctx.count("orders-nonintegral")
+        try:
+            r = obj._check_orders(m, l)
+        except Exception:  # noqa: BLE001  (any exception is a rejection)
+            continue
+        ctx.fail("oracle", "C16/oracle/check_orders-nonintegral", f"_check_orders({m!r}, {l!r}) returned {r!r}: an order specification that is not one of 2, 3, 4, 2-3, 3-4, 2-3-4 was accepted",
+                 replay={"call": "_check_orders", "max_order": repr(m), "orders": repr(l), "impl": repr(r)}, has_input=True)
+    sc = make_supercell(base_cells()["mono_P"], (1, 1, 1))
+    at = atoms_of(sc)
+    N = len(sc["numbers"])
+    d0, f0 = rng.normal(size=(12, N, 3)) * 0.05, rng.normal(size=(12, N, 3))
+    for l in ([2.5], ["2"], np.array([2.9]), "2"):
+        for route in ("run", "solve", "compute_basis_set"):
+            o = Symfc(at, displacements=d0, forces=f0).run(orders=[2])
+            ref = {k: np.array(v) for k, v in o.force_constants.items()}
+            nbasis = {k: v.basis_set.shape for k, v in o.basis_set.items()}
+            ctx.case({"nonintegral_orders_route": route, "orders": repr(l)}, nontrivial=True)
+            ctx.count("orders-nonintegral-route")
+            try:
+                getattr(o, route)(orders=l)
+                raised = False
+            except Exception:  # noqa: BLE001
+                raised = True
+            same = set(o.force_constants) == set(ref) and all(np.array_equal(o.force_constants[k], ref[k]) for k in ref) and {k: v.basis_set.shape for k, v in o.basis_set.items()} == nbasis
+            if not raised or not same:
+                ctx.fail("oracle", "C16/oracle/nonintegral-orders-route", f"{route}(orders={l!r}) on an object holding fc2: {'no exception' if not raised else 'exception, but the stored results changed'}",
+                         replay={"route": route, "orders": repr(l), "raised": raised, "state_unchanged": bool(same)}, has_input=True)
